@@ -61,7 +61,7 @@ type item struct {
 
 type filter struct {
 	O  string `json:"o"`
-	S  string `json:"s"`
+	S  string `json:"s"` // serial class; for a spelled lookup the class its decimal reading names / "other" / "invalid"
 	St string `json:"st"`
 }
 
@@ -71,6 +71,7 @@ type qres struct {
 	Via   string   `json:"via"` // route / method name
 	F     filter   `json:"f"`
 	Ps    int      `json:"ps"` // page size; 0 = no pagination requested
+	Sp    string   `json:"sp"` // spelled lookup: the text sent as the filter's serial ("" = canonical decimal of f.s)
 	Pm    string   `json:"pm"` // paging style: key (follow next_key) | total (same, count_total set) | offset
 	OK    bool     `json:"ok"`
 	Err   string   `json:"err"`
@@ -178,12 +179,14 @@ func (u *universe) toItem(r ctypes.CertificateResponse) item {
 	return item{O: o, S: s, B: b, Rs: u.serialClass(r.Serial), St: stateName(r.Certificate.State)}
 }
 
-func (u *universe) filterReq(f filter) ctypes.CertificateFilter {
+func (u *universe) filterReq(f filter, sp string) ctypes.CertificateFilter {
 	out := ctypes.CertificateFilter{State: f.St}
 	if f.O != "" {
 		out.Owner = u.addr[f.O].String()
 	}
-	if f.S != "" {
+	if sp != "" {
+		out.Serial = sp
+	} else if f.S != "" {
 		out.Serial = serialOf(f.S).String()
 	}
 	return out
@@ -196,7 +199,12 @@ const maxPages = 64
 // count_total, "offset" advances the offset by the page size. Any error or panic on any page makes the
 // listing "failed".
 func (c *chain) list(ctx sdk.Context, u *universe, f filter, ps int, pm string) (res qres) {
-	res = qres{K: "list", Via: "grpc", F: f, Ps: ps, Pm: pm, Pages: [][]item{}}
+	return c.listSpelled(ctx, u, f, ps, pm, "")
+}
+
+// listSpelled: as list, the serial of the filter sent as the text sp when it is not empty.
+func (c *chain) listSpelled(ctx sdk.Context, u *universe, f filter, ps int, pm string, sp string) (res qres) {
+	res = qres{K: "list", Via: "grpc", F: f, Ps: ps, Pm: pm, Sp: sp, Pages: [][]item{}}
 	defer func() {
 		if r := recover(); r != nil {
 			res.OK, res.Err = false, fmt.Sprintf("panic: %v", r)
@@ -218,7 +226,7 @@ func (c *chain) list(ctx sdk.Context, u *universe, f filter, ps int, pm string) 
 			res.OK, res.Err = false, "pagination does not terminate"
 			return
 		}
-		req := ctypes.QueryCertificatesRequest{Filter: u.filterReq(f)}
+		req := ctypes.QueryCertificatesRequest{Filter: u.filterReq(f, sp)}
 		if ps > 0 {
 			switch pm {
 			case "offset":
@@ -240,7 +248,7 @@ func (c *chain) list(ctx sdk.Context, u *universe, f filter, ps int, pm string) 
 		}
 		var resp ctypes.QueryCertificatesResponse
 		if err := resp.Unmarshal(out.Value); err != nil {
-			res.OK, res.Err = false, "undecodable response: " + err.Error()
+			res.OK, res.Err = false, "undecodable response: "+err.Error()
 			return
 		}
 		page := []item{}
@@ -336,6 +344,14 @@ func (c *chain) queries(ctx sdk.Context, u *universe, pageSizes []int) []qres {
 	for _, o := range u.Owners {
 		for _, s := range u.Serials {
 			out = append(out, c.get(ctx, u, o, s))
+		}
+	}
+	// lookups by owner and a SPELLED serial
+	for _, o := range u.Owners {
+		for _, sp := range u.Spellings {
+			if sp.Sp != "" {
+				out = append(out, c.listSpelled(ctx, u, filter{O: o, S: sp.Rd}, 0, "key", sp.Sp))
+			}
 		}
 	}
 	return out
